@@ -81,6 +81,7 @@ pub struct RunResult {
     pub events: Vec<(usize, Event)>,
     pub final_dump: Option<CDump>,
     pub final_get: Vec<(u32, Option<i64>)>,
+    pub final_hashes: Vec<(u32, u64)>,
     pub final_len: usize,
     pub final_iter: Vec<(u32, i64)>,
     pub failures: Vec<String>,
@@ -407,6 +408,7 @@ pub fn run_program<S: BuildHasher + Default + Send + Sync>(p: &Program, opts: Ru
     // quiescent observations
     let mut final_dump = None;
     let mut final_get = Vec::new();
+    let mut final_hashes = Vec::new();
     let mut final_len = 0;
     let mut final_iter = Vec::new();
     if verdict == Verdict::Done {
@@ -415,10 +417,12 @@ pub fn run_program<S: BuildHasher + Default + Send + Sync>(p: &Program, opts: Ru
             let d = canon(&map.verif_dump(&g));
             let gets: Vec<(u32, Option<i64>)> = (0..p.universe).map(|k| (k, map.get(&Key::probe(k), &g).map(|v| v.payload))).collect();
             let it: Vec<(u32, i64)> = map.iter(&g).map(|(k, v)| (k.id, v.payload)).collect();
-            (d, gets, map.len(), it)
+            let hs: Vec<(u32, u64)> = (0..p.universe).map(|k| (k, map.verif_hash(&Key::probe(k)))).collect();
+            (d, gets, map.len(), it, hs)
         }));
         match r {
-            Ok((d, g, l, it)) => {
+            Ok((d, g, l, it, hs)) => {
+                final_hashes = hs;
                 final_dump = Some(d);
                 final_get = g;
                 final_len = l;
@@ -451,6 +455,7 @@ pub fn run_program<S: BuildHasher + Default + Send + Sync>(p: &Program, opts: Ru
         events: events.into_inner().unwrap(),
         final_dump,
         final_get,
+        final_hashes,
         final_len,
         final_iter,
         failures,
@@ -577,6 +582,21 @@ fn kop_coq(op: &KOp) -> String {
         KOp::Compute(f, k, seen, ret) => format!("KCompute (remap_tbl {} {}) {} {}", f, k, oz(seen), oz(ret)),
         KOp::CondRemove(obs) => format!("KCondRemove {}", obs),
         KOp::ForceRemove | KOp::ClearKey => "KForceRemove".into(),
+    }
+}
+
+/// Coq text: the quiescent dump of the run must satisfy the model's well-formedness predicate
+pub fn quiescent_coq(r: &RunResult) -> (String, usize) {
+    match (&r.final_dump, r.verdict) {
+        (Some(d), Verdict::Done) if d.next.is_none() => (
+            format!(
+                "Eval vm_compute in (wf_b (hash_of [{}]) (to_st ({}))).\n",
+                r.final_hashes.iter().map(|(k, h)| format!("H_ {} {}", k, h)).collect::<Vec<_>>().join(";"),
+                crate::dump::dump_coq(d)
+            ),
+            1,
+        ),
+        _ => (String::new(), 0),
     }
 }
 
